@@ -901,6 +901,60 @@ def run_faults(ctx, exe, cfg, nscripts, nthreads):
     return items
 
 
+def stock_crosscheck(ctx, nproc, per):
+    """the same scripts on a probe built with tiny-std's *own* global allocator (no wrapper, no heap markers): values,
+    exactly-once, stack mmap/munmap pairing and VmSize / mapping list back at baseline must not depend on the wrapper"""
+    exe, err = build_probe(ctx, "dyn", stock=True)
+    if exe is None:
+        ctx.extra["stock_probe"] = "unavailable: " + err[-200:]
+        return
+    r = ctx.rng
+    jobs = [[gen_batch(r, 32) for _ in range(per)] for _ in range(nproc)]
+
+    def work(bs):
+        script = script_of(bs)
+        return bs, script, run_probe(exe, script, timeout=watchdog_of(bs))
+    n = 0
+    with cf.ThreadPoolExecutor(12) as ex:
+        for bs, script, run in ex.map(work, jobs):
+            textb, classes = parse_out(run["out"])
+            recs, _ = parse_trace(run["trace"])
+            maps = sorted((x["ret"], x["args"][1]) for x in recs if x["name"] == "mmap" and len(x["args"]) > 1 and x["args"][1] == STACK_LEN and x["err"] is None)
+            unmaps = sorted((x["args"][0], x["args"][1]) for x in recs if x["name"] == "munmap" and len(x["args"]) > 1 and x["args"][1] == STACK_LEN)
+            bad = []
+            if run["timed_out"]:
+                bad.append("watchdog")
+            if maps != unmaps:
+                bad.append("stack mmaps %d vs munmaps %d do not pair up" % (len(maps), len(unmaps)))
+            for bno, specs in enumerate(bs):
+                tb = textb.get(bno)
+                n += 1
+                ctx.evaluations += 1
+                if tb is None or not tb["ended"]:
+                    bad.append("batch %d did not finish" % bno)
+                    continue
+                for sp in specs:
+                    ru = tb["runs"].get(sp["id"])
+                    if tb["spawn"].get(sp["id"], ("?",))[0] != "ok" or ru is None or ru["count"] != 1:
+                        bad.append("id %d: spawn/run record %s %s" % (sp["id"], tb["spawn"].get(sp["id"]), ru))
+                        continue
+                    if sp["action"] == "join":
+                        j = tb["join"].get(sp["id"])
+                        want = None if sp["panic"] else (expected_digest(sp["class"], ru["token"], None) if sp["class"] != 3 else "any")
+                        if j is None or j["effect"] != 1 or (want != "any" and j["val"] != want) or (want == "any" and j["val"] is None):
+                            bad.append("id %d: join %s, expected %s" % (sp["id"], j, want))
+                b, a = tb["before"], tb["after"]
+                if a["threads"] != 1 or (a["vm"], a["maps"], a["maphash"]) != (b["vm"], b["maps"], b["maphash"]):
+                    # the allocator may legitimately have grown its heap in this batch
+                    grew = any(x["name"] in ("mmap", "mremap", "brk") and not (len(x["args"]) > 1 and x["args"][1] == STACK_LEN) for x in recs)
+                    if a["threads"] != 1 or not grew:
+                        bad.append("batch %d: VmSize/mappings %s -> %s" % (bno, b, a))
+            if bad:
+                ctx.violation({"kind": "stock-allocator-crosscheck"}, {"script": script, "problems": bad[:6],
+                              "how_to_replay": "printf %r | strace -f -e trace=%s %s" % (script, TRACE, exe)})
+    ctx.extra["stock_allocator_batches"] = n
+
+
 ASSUMPTIONS = [
     "kernel: at thread exit, if the clear-tid address is non-null, the kernel writes 0 to it and FUTEX_WAKEs it (CLONE_CHILD_CLEARTID); this happens after everything the thread did and is the synchronisation join/drop rely on (exercised on every probe run, not proved)",
     "FUTEX_WAIT compares and enqueues atomically and may return 0 spuriously (allowed by the model: spurious = true); the kernel's clear-tid write is treated as a release of everything the exited thread did, observed by the Acquire re-check load of wait_for_exit / by the futex system call",
@@ -983,10 +1037,7 @@ def run(ctx, which="C05"):
         by_inj.setdefault(it.get("inject"), []).append(it)
     for inj, its in by_inj.items():
         nbad += account(ctx, its, exes["dyn"], pid_kinds=kinds, inject=inj)
-    classes = {}
-    for it in items:
-        if not it.get("missing"):
-            break
+    stock_crosscheck(ctx, 3 if quick else 30, 6)
     _, classes = parse_out(run_probe(exes["dyn"], "", timeout=10)["out"])
     ctx.extra["result_classes"] = {CLASSES[k]: v for k, v in classes.items()}
     layout_tie(ctx, classes)
